@@ -314,7 +314,14 @@ def ev_runfor(case):
             "sample": {"sampler": kind, "costs": costs, "budget": budget, "steps": clock.steps}}
 
 
-EVALUATORS = {"advance": ev_advance, "pool": ev_pool, "realpool": ev_realpool, "runfor": ev_runfor}
+def ev_ptadvance(case):
+    """ParallelTempering.advance(n, swap_interval): every chain advanced by exactly n (shared with C08's arithmetic evaluator)"""
+    from checks.c08 import ev_arith
+
+    return ev_arith(case)
+
+
+EVALUATORS = {"advance": ev_advance, "pool": ev_pool, "realpool": ev_realpool, "runfor": ev_runfor, "ptadvance": ev_ptadvance}
 
 
 def run(ck):
@@ -339,6 +346,8 @@ def run(ck):
         if kind != "EnsembleSampler":
             ac.append(dict(sampler=kind, display=False, d=1, seqs=[[m] for m in (0, 1, 99, 100, 101, 260)] + [[100, 60]], walkers=4))
     ck.run_cases("advance", ac, chunk=2)
+    pt_ns = list(range(0, 61)) + [99, 100, 101, 130, 523] if q else list(range(0, 131)) + [523, 1007]
+    ck.run_cases("ptadvance", [dict(N=2 + (si % 2), si=si, ns=pt_ns[k::4]) for si in ((1, 2, 3, 7, 10) if q else range(1, 13)) for k in range(4)], chunk=1)
     pc = []
     for size in (1, 2, 3, 4):
         for display in (False, True):
